@@ -371,7 +371,7 @@ class Flattener:
         return g, recv
 
     # ---------------------------------------------------------------- inlining one call
-    def _expand(self, fn, call, g, recv, caller_names, want_value, generator=False):
+    def _expand(self, fn, call, g, recv, caller_names, want_value, generator=False, into=None):
         gnode = self.flat_node(g)
         if any(d not in ("staticmethod", "classmethod") for d in g.decorators):
             raise CannotInline("decorated helper")
@@ -451,6 +451,11 @@ class Flattener:
             if p in inner_args:
                 raise CannotInline("lambda parameter shadows %s" % p)
             if isinstance(x, ast.Name) and p not in stored and x.id not in stored:
+                mapping[p] = x.id
+            elif isinstance(x, ast.Name) and into is not None and x.id == into and sum(1 for y_ in bound.values() if isinstance(y_, ast.Name) and y_.id == into) == 1 \
+                    and x.id not in (stored - {p}):
+                # `X = helper(X, ...)`: the helper may re-bind its parameter; the caller's X is overwritten by the result
+                # anyway, so the parameter *is* X (no exception handler of the caller can observe the difference)
                 mapping[p] = x.id
             elif isinstance(x, ast.Constant) and (x.value is None or isinstance(x.value, (bool, int, float, str))) and p not in stored:
                 consts[p] = x  # a constant argument (a flag) is substituted; tests on it are folded below
@@ -565,7 +570,11 @@ class Flattener:
                     if g.qual in self._active or len(self._active) > MAX_DEPTH:
                         raise CannotInline("recursion")
                     want = not (isinstance(st, ast.Expr) and st.value is call)
-                    pre, retvar = self._expand(fn, call, g, recv, caller_names, want)
+                    into = None
+                    if isinstance(st, ast.Assign) and st.value is call and len(st.targets) == 1 and isinstance(st.targets[0], ast.Name) \
+                            and not any(isinstance(y_, ast.Try) for y_ in ast.walk(fn.node)):
+                        into = st.targets[0].id
+                    pre, retvar = self._expand(fn, call, g, recv, caller_names, want, into=into)
                 except CannotInline as e:
                     self.refused.append((fn.qual, g.qual, str(e)))
                     continue
@@ -790,6 +799,7 @@ class Flattener:
             self._fuse_late(fn, new)
             _scalarize_results(new)
             _forward_single_results(new)
+            _drop_self_assignments(new)
             _scalarize_records(self.m, fn, new)
             ast.fix_missing_locations(new)
         finally:
@@ -860,6 +870,17 @@ def _scalarize_records(model, fn, fnode):
         for u in uses:
             at = parent[id(u)]
             _replace(fnode, at, _clone(byfield[at.attr]))
+
+
+def _drop_self_assignments(fnode):
+    """`x = x` (left behind when the result of `x = helper(x)` was forwarded) is dropped."""
+    for p in ast.walk(fnode):
+        for fld in ("body", "orelse", "finalbody"):
+            lst = getattr(p, fld, None)
+            if isinstance(lst, list) and lst and isinstance(lst[0], ast.stmt):
+                keep = [st for st in lst if not (isinstance(st, ast.Assign) and len(st.targets) == 1 and isinstance(st.targets[0], ast.Name) and isinstance(st.value, ast.Name) and st.value.id == st.targets[0].id)]
+                if len(keep) != len(lst):
+                    lst[:] = keep or [ast.copy_location(ast.Pass(), lst[0])]
 
 
 def _forward_single_results(fnode):
@@ -1195,6 +1216,11 @@ def _desugar_body(stmts):
                 new_st._annotation = st.annotation
                 st = new_st
                 changed = True
+        nx = _next_search(st)
+        if nx is not None:
+            out += nx
+            changed = True
+            continue
         if isinstance(st, ast.Return) and isinstance(st.value, ast.IfExp):
             e = st.value
             a = ast.copy_location(ast.Return(value=e.body), e.body)
@@ -1228,6 +1254,45 @@ def _desugar_body(stmts):
         else:
             out.append(st)
     return out, changed
+
+
+_NEXT_COUNTER = [0]
+
+
+def _next_search(st):
+    """`x = next((E for T in IT if C), D)` -> the search loop it abbreviates:
+    `for T in IT: if C: x = E; break` / `else: x = D` (`return next(...)` likewise, with returns).  The comprehension
+    variable is renamed to a fresh name, so nothing leaks."""
+    if isinstance(st, ast.Assign) and len(st.targets) == 1 and isinstance(st.targets[0], ast.Name):
+        call, mk = st.value, lambda v, at: [ast.copy_location(ast.Assign(targets=[_clone(st.targets[0])], value=v, lineno=st.lineno), at)]
+        brk = True
+    elif isinstance(st, ast.Return) and st.value is not None:
+        call, mk = st.value, lambda v, at: [ast.copy_location(ast.Return(value=v), at)]
+        brk = False
+    else:
+        return None
+    if not (isinstance(call, ast.Call) and isinstance(call.func, ast.Name) and call.func.id == "next" and len(call.args) == 2 and not call.keywords
+            and isinstance(call.args[0], ast.GeneratorExp) and len(call.args[0].generators) == 1 and not call.args[0].generators[0].is_async):
+        return None
+    gen = call.args[0]
+    g = gen.generators[0]
+    if not isinstance(call.args[1], (ast.Constant, ast.Name)):
+        return None
+    tnames = {y.id for y in ast.walk(g.target) if isinstance(y, ast.Name)}
+    _NEXT_COUNTER[0] += 1
+    ren = {n_: "%s__n%d" % (n_, _NEXT_COUNTER[0]) for n_ in tnames}
+    target = _Rename(ren).visit(_clone(g.target))
+    for y in ast.walk(target):
+        if isinstance(y, ast.Name):
+            y.ctx = ast.Store()
+    elt = _Rename(ren).visit(_clone(gen.elt))
+    ifs = [_Rename(ren).visit(_clone(c)) for c in g.ifs]
+    hit = mk(elt, st) + ([ast.copy_location(ast.Break(), st)] if brk else [])
+    body = hit
+    for c in reversed(ifs):
+        body = [ast.copy_location(ast.If(test=c, body=body, orelse=[]), st)]
+    loop = ast.copy_location(ast.For(target=target, iter=g.iter, body=body, orelse=mk(call.args[1], st) if brk else [], type_comment=None), st)
+    return [loop] + ([] if brk else mk(call.args[1], st))
 
 
 def _independent(targets, values):
@@ -1365,6 +1430,8 @@ def _table_literal(model, fn, expr, _hops=0):
                     return True
         return False
 
+    if isinstance(expr, (ast.Tuple, ast.Dict)):
+        return expr  # a literal table written in place (what a row of a table of tables becomes)
     if isinstance(expr, ast.Name):
         if any(isinstance(x, ast.Name) and x.id == expr.id and isinstance(x.ctx, ast.Store) for x in ast.walk(fn.node)) or expr.id in fn.params:
             return None
@@ -1467,12 +1534,28 @@ def _expand_tables_body(model, fn, stmts, budget):
                 h.body = new
                 changed = True
         # (1) `for a, b, c in ((x1, y1, z1), (x2, y2, z2)): BODY` -> BODY with the row substituted, once per row
+        if isinstance(st, ast.For) and not st.orelse and isinstance(st.iter, (ast.Name, ast.Attribute)) and isinstance(st.target, ast.Tuple):
+            tb_ = _table_literal(model, fn, st.iter)
+            if isinstance(tb_, ast.Tuple):
+                st.iter = _clone(tb_)  # a constant module / class table of rows: iterate the literal
+            elif isinstance(st.iter, ast.Name):
+                # a local bound just before to a literal tuple of rows and used for nothing else
+                nm = st.iter.id
+                uses = sum(1 for x in ast.walk(fn.node) if isinstance(x, ast.Name) and x.id == nm)
+                prev = [j for j, o in enumerate(out) if isinstance(o, ast.Assign) and len(o.targets) == 1 and isinstance(o.targets[0], ast.Name) and o.targets[0].id == nm and isinstance(o.value, ast.Tuple)]
+                if uses == 2 and len(prev) == 1 and prev[0] == len(out) - 1:
+                    st.iter = out.pop(prev[0]).value
         if isinstance(st, ast.For) and not st.orelse and isinstance(st.iter, ast.Tuple) and 1 <= len(st.iter.elts) <= 4 and isinstance(st.target, ast.Tuple) \
                 and all(isinstance(t, ast.Name) for t in st.target.elts) and all(isinstance(r, ast.Tuple) and len(r.elts) == len(st.target.elts) for r in st.iter.elts) \
                 and not _own_breaks(st.body) and _without_continue(st.body) is not None:
             st.body = _without_continue(st.body)
             names = [t.id for t in st.target.elts]
-            simple = all(isinstance(e, (ast.Name, ast.Constant)) or (isinstance(e, ast.Attribute) and isinstance(e.value, ast.Name)) for r in st.iter.elts for e in r.elts)
+            def _simple(e):
+                if isinstance(e, (ast.Name, ast.Constant)) or (isinstance(e, ast.Attribute) and isinstance(e.value, ast.Name)):
+                    return True
+                return isinstance(e, ast.Tuple) and all(_simple(x) for x in e.elts)
+
+            simple = all(_simple(e) for r in st.iter.elts for e in r.elts)
             stored = {x.id for b in st.body for x in ast.walk(b) if isinstance(x, ast.Name) and isinstance(x.ctx, (ast.Store, ast.Del))}
             read_roots = {x.id for r in st.iter.elts for x in ast.walk(r) if isinstance(x, ast.Name)}
             used_after = any(isinstance(x, ast.Name) and x.id in names for later in stmts[i + 1:] for x in ast.walk(later))
@@ -1480,7 +1563,7 @@ def _expand_tables_body(model, fn, stmts, budget):
                 budget[0] -= 1
                 for r in st.iter.elts:
                     env = {n_: e for n_, e in zip(names, r.elts)}
-                    body = [_SubstExpr(env).visit(b) for b in _cp(st.body)]
+                    body = [_FoldGetattr().visit(_SubstExpr(env).visit(b)) for b in _cp(st.body)]
                     new, _ = _expand_tables_body(model, fn, body, budget)
                     out += new
                 changed = True
@@ -1517,6 +1600,17 @@ def _expand_tables_body(model, fn, stmts, budget):
         out.append(st)
         i += 1
     return out, changed
+
+
+class _FoldGetattr(ast.NodeTransformer):
+    """getattr(x, "name") -> x.name"""
+
+    def visit_Call(self, node):
+        self.generic_visit(node)
+        if isinstance(node.func, ast.Name) and node.func.id == "getattr" and len(node.args) == 2 and not node.keywords and isinstance(node.args[1], ast.Constant) \
+                and isinstance(node.args[1].value, str) and node.args[1].value.isidentifier():
+            return ast.copy_location(ast.Attribute(value=node.args[0], attr=node.args[1].value, ctx=ast.Load()), node)
+        return node
 
 
 class _SubstExpr(ast.NodeTransformer):
